@@ -150,6 +150,54 @@ pub fn campaigns(ctx: &Ctx) -> Stats {
             Some(Case6::S(SeqCase { calls }))
         }));
     }
+    // image and filter values of very different magnitudes (against each other, and element by element)
+    {
+        let shapes: Vec<(Vec<usize>, Vec<usize>, usize, usize)> = vec![
+            (vec![1, 3, 3], vec![2, 1, 2, 2], 1, 1),
+            (vec![2, 2, 4, 3], vec![1, 2, 2, 3], 1, 1),
+            (vec![3, 2, 5], vec![2, 3, 1, 2], 1, 2),
+            (vec![1, 6, 6], vec![3, 1, 3, 3], 2, 1),
+            (vec![2, 4, 4], vec![2, 2, 4, 4], 1, 1),
+        ];
+        let ns = shapes.len() as u64;
+        let (_, mul, jit) = wide_exps();
+        st.merge(ctx.run_indexed("wide-magnitudes", ns * t.pick(3000, 40000), None, |i| {
+            let (image, filters, sr, sc) = shapes[(i % ns) as usize].clone();
+            let z = mix(i ^ 0xC06 ^ ctx.seed.wrapping_mul(0x9E3779B1));
+            let bi = pick_base(z as u8, mul);
+            let bf = match (z >> 8) % 3 {
+                0 => -bi,
+                1 => 0,
+                _ => pick_base((z >> 16) as u8, mul),
+            };
+            let (ji, jf) = (if (z >> 24) & 1 == 0 { 0 } else { jit }, if (z >> 25) & 1 == 0 { 0 } else { jit });
+            Some(Case6::F(FwdCase {
+                op: refmodel::ir::OpKind::Conv { sr, sc },
+                leaves: vec![LeafSpec { dims: image.clone(), vals: wide_vals(z, numel(&image), bi, ji, true), tracked: (z >> 26) & 1 == 1 }, LeafSpec { dims: filters.clone(), vals: wide_vals(z ^ 3, numel(&filters), bf, jf, true), tracked: false }],
+                force_exact: None,
+                second_is_view_of_first: None,
+            }))
+        }));
+    }
+    // images whose element offsets exceed 2^16 (and 2^17): offsets kept in narrow integer types wrap silently
+    {
+        let big: Vec<(Vec<usize>, Vec<usize>, usize, usize)> = vec![
+            (vec![2, 260, 260], vec![1, 2, 2, 2], 1, 1),
+            (vec![5, 128, 128], vec![2, 5, 3, 3], 2, 2),
+            (vec![1, 300, 300], vec![1, 1, 2, 3], 2, 1),
+            (vec![3, 1, 70000], vec![1, 3, 1, 2], 1, 1),
+            (vec![2, 2, 190, 190], vec![1, 2, 2, 2], 3, 3),
+            (vec![1, 70000, 1], vec![2, 1, 3, 1], 2, 1),
+            (vec![40, 60, 60], vec![1, 40, 2, 2], 4, 4),
+        ];
+        st.merge(ctx.run_indexed("image-offsets-beyond-65536", big.len() as u64, None, |i| {
+            let (image, filters, sr, sc) = big[i as usize].clone();
+            // position-dependent exact data: a wrong read is visible
+            let iv: Vec<f64> = (0..numel(&image)).map(|k| ((k * 31 + k / 977) % 509) as f64 - 250.0).collect();
+            let fv: Vec<f64> = (0..numel(&filters)).map(|k| ((k * 7) % 23) as f64 - 11.0).collect();
+            Some(Case6::F(FwdCase { op: refmodel::ir::OpKind::Conv { sr, sc }, leaves: vec![LeafSpec { dims: image, vals: iv, tracked: false }, LeafSpec { dims: filters, vals: fv, tracked: false }], force_exact: None, second_is_view_of_first: None }))
+        }));
+    }
     let total = t.pick(15000u64, 300000);
     let mxi = t.pick(10usize, 14);
     let strat = move || {
